@@ -132,7 +132,10 @@ def judge(ctx: vf.Ctx, js: dict, r: dict, source: str) -> bool:
              no_apply_placement=noplace)
     if o['mq_bad']:
         viol('mq_not_native', 'only native multi-qudit gates', o['mq_bad'], 'non-native multi-qudit gate in the output')
-    if o['sq_bad']:
+    if o['sq_bad'] and gsname == 'nosq':
+        # gate set without single-qudit gates: compile() only promises its best effort and logs a WARNING
+        ctx.count('nosq_best_effort_sq_left')
+    elif o['sq_bad']:
         viol('sq_not_native', 'only native single-qudit gates', o['sq_bad'], 'non-native single-qudit gate in the output')
     if not o['coupled']:
         viol('uncoupled', 'multi-qudit gates on coupled qudits only', o['uncoupled'],
@@ -262,6 +265,16 @@ def correspondence(ctx: vf.Ctx, count: int):
             oldc, newc = real_circ(bw, old_ops), real_circ(bw, new_ops)
             fully = rng.random() < 0.5
             impl_r = 'T' if fe._is_respecting(newc, loc, model, fully) else 'F'
+            # independent meaning of "respecting": native multi-qudit gates (all gates when fully), every
+            # interacting pair of the block coupled at its location
+            edges_s = {tuple(sorted(e)) for e in es}
+            want_r = (all(g in gs for g, l in new_ops if len(l) >= 2) and (not fully or all(g in gs for g, l in new_ops if len(l) < 2))
+                      and all(tuple(sorted((loc[a], loc[b]))) in edges_s for g, l in new_ops for a, b in itertools.combinations(l, 2)))
+            if (impl_r == 'T') != want_r:
+                inc = all(loc[min(a, b)] <= loc[max(a, b)] for g, l in new_ops for a, b in itertools.combinations(l, 2))
+                ctx.violation(dict(call='_is_respecting', symptom='wrong_verdict' if inc else 'unsorted_location'),
+                              dict(n=n, edges=es, gates=gs, loc=loc, block=new_ops, fully=fully), want_r, impl_r == 'T',
+                              '_is_respecting differs from its documented meaning (block can run on the machine at the location)')
             lines.append(f'resp {mtxt(n, gs, es)} {ctxt(bw, new_ops)} {fmt(loc)} {fmt(fully)}')
             expect.append(('resp', impl_r, ('resp',) + key[1:4] + (tuple(loc), fully, tuple((g, tuple(l)) for g, l in new_ops)), None))
             old_is_cg = rng.random() < 0.8
